@@ -371,7 +371,14 @@ func (state *inflate) readLitDistLens(ctx *dynamicHeaderReader, hdist, hlit int)
 
 			i := int(3 + ret)
 
-			if curr+i > end || prev == -1 {
+			// lengths still to be defined: the rest of the lit/len codes (the
+			// entries between them and the distance codes are skipped) plus
+			// the distance codes
+			avail := end - curr
+			if &count[0] != &ctx.distCount[0] && curr <= int(litTableSize+hlit) {
+				avail = int(litTableSize+hlit) - curr + hdist + 1
+			}
+			if i > avail || prev == -1 {
 				err = errInvalidBlock
 				goto END
 			}
